@@ -31,23 +31,23 @@ def run(ctx):
                                                 lambda: rpipe.export(ctx, "mock"), lambda: rpipe.export(ctx, "mockfd"),
                                                 lambda: rpipe.export(ctx, "realpbf"), lambda: rpipe.export(ctx, "realtext"))
     cases = []
-    nseeds = 2 if quick else 5
+    nseeds = 2 if quick else 4
     deep = lambda c: nofault(c) and c["cfg"]["n"] >= 1 and any(op in ("read", "readall") for op in c["cfg"]["script"])
-    for i, c in enumerate(rpipe.sample([c for c in mock if deep(c)], 90 if quick else 2500, rnd,
+    for i, c in enumerate(rpipe.sample(mock, 90 if quick else 2000, rnd, pred=deep,
                                        key=lambda c: (str(c["cfg"]["nest"]), c["cfg"]["pool"]))):
         cases.append(rpipe.mk_case(i, "mock", c, rnd, nseeds))
-    for i, c in enumerate(rpipe.sample([c for c in mockfd if deep(c)], 40 if quick else 1000, rnd,
+    for i, c in enumerate(rpipe.sample(mockfd, 40 if quick else 800, rnd, pred=deep,
                                        key=lambda c: (str(c["cfg"]["nest"]), c["cfg"]["pool"]))):
         cases.append(rpipe.mk_case(i, "mockfd", c, rnd, nseeds))
-    pbf = [c for c in pbf if nofault(c) and rpipe.mask_of(c["cfg"]) and rpipe.literal_reads_ok(c)]
-    for i, c in enumerate(rpipe.sample(pbf, 60 if quick else 800, rnd, key=lambda c: (str(c["cfg"]["skip"]), c["cfg"]["pool"]))):
+    okpbf = lambda c: nofault(c) and rpipe.mask_of(c["cfg"]) and rpipe.literal_reads_ok(c)
+    for i, c in enumerate(rpipe.sample(pbf, 60 if quick else 800, rnd, pred=okpbf, key=lambda c: (str(c["cfg"]["skip"]), c["cfg"]["pool"]))):
         cases.append(rpipe.mk_case(i, "realpbf", c, rnd, nseeds, format="pbf", R=rnd.choice([3, 40]),
                                    mask=rpipe.mask_of(c["cfg"]), meta=True, single=False))
     # API level only: real parsers of all formats the library can write, large blocks (nested buffers inside PBF blobs,
     # XML/OPL buffers beyond the parser's buffer size in the thorough tier)
-    real = [c for c in text if rpipe.mask_of(c["cfg"]) and rpipe.literal_reads_ok(c)]
+    okreal = lambda c: rpipe.mask_of(c["cfg"]) and rpipe.literal_reads_ok(c)
     fmts = ["xml", "opl", "pbf", "pbf,pbf_dense_nodes=false", "pbf,pbf_compression=none"]
-    for i, c in enumerate(rpipe.sample(real, 150 if quick else 1500, rnd, key=lambda c: (str(c["cfg"]["skip"]), c["cfg"]["n"]))):
+    for i, c in enumerate(rpipe.sample(text, 150 if quick else 1500, rnd, pred=okreal, key=lambda c: (str(c["cfg"]["skip"]), c["cfg"]["n"]))):
         cc = dict(c)
         cc["cfg"] = dict(c["cfg"], pool=rnd.choice([True, False]))
         # big files: a real read() delivers less than a model buffer, so only scripts without literal partial reads
